@@ -131,6 +131,9 @@ def description(draw):
     # declaration order inside a scope: group by group, or interleaved so that the members of an
     # overload set are separated by other declarations
     lib["spread"] = draw(st.booleans())
+    # reference.rst F_flatten_namespace: the namespaces' Fortran entities go into the library module, their
+    # names prefixed with the namespace names
+    lib["flatten"] = draw(st.integers(0, 3)) == 0
     return lib
 
 
@@ -161,7 +164,8 @@ def to_yaml(lib):
                 reorder(d["declarations"])
     reorder(top)
     doc = {"library": lib["library"], "cxx_header": "names.hpp",
-           "options": {"wrap_python": lib["python"], "wrap_lua": lib["lua"], "debug": False},
+           "options": dict({"wrap_python": lib["python"], "wrap_lua": lib["lua"], "debug": False},
+                           **({"F_flatten_namespace": True} if lib.get("flatten") else {})),
            "declarations": top}
     return yaml.safe_dump(doc, sort_keys=False, width=1000)
 
@@ -301,8 +305,9 @@ def judge(lib, files):
                 problems.append(("supplied-suffix-unused", "suffix %r supplied for %s appears in no generated name" % (s, g["name"])))
         # Fortran specifics
         in_class = scope == ["Class1"]
-        fstem = ("class1_" if in_class else "") + un_camel(g["name"]).lower()
-        modname = _module_file(lib, scope, fent)
+        fscope = "".join(x.lower() + "_" for x in scope if x != "Class1") if lib.get("flatten") else ""
+        fstem = fscope + ("class1_" if in_class else "") + un_camel(g["name"]).lower()
+        modname = _module_file(lib, [] if lib.get("flatten") else scope, fent)
         e = fent.get(modname)
         if e is None:
             problems.append(("fortran-module-missing", "no Fortran module file for scope %s" % scope))
@@ -314,7 +319,7 @@ def judge(lib, files):
             problems.append(("fortran-specific-count:%s" % g["kind"],
                              "%s has %d callable Fortran signatures but %d specific procedures %s* : %s"
                              % (g["name"], want, len(cand), fstem, sorted(cand))))
-        gname = un_camel(g["name"]).lower()
+        gname = (fscope if not in_class else "") + un_camel(g["name"]).lower()
         if in_class:
             tb = e["tb_generics"].get(gname)
             if want > 1:
